@@ -19,7 +19,7 @@ RULE = ("grid world in {LineWorld, GridWorld, DiscreteWorld incl. zero-extent ax
         "or ndarray table of the world's dimensionality; every value encodes (component serial, x, y, z); non-trivial = "
         "non-cubic world with >=2 populated axes, >=2 live components of different source kinds at once and >=1 removal "
         "followed by a full read-back; distinct = (shape, sequence of (op, source kind, live count))"
-        "; also: generator objects reused across components (table edited in place / rebound, constant changed), re-adding a live name, sequence-valued constants, a ConstantGenerator subclass, tables mixing text and numbers, callables mixing exact ints with fractional floats / numeric-looking text, a callable source object that also has len / indexing, a second discrete world in the same process using the same component names; rare switch for known finding F12")
+        "; also: generator objects reused across components (table edited in place / rebound, constant changed), re-adding a live name, sequence-valued constants, a ConstantGenerator subclass, tables mixing text and numbers, callables mixing exact ints with fractional floats / numeric-looking text, a callable source object that also has len / indexing, a live name re-added from a callable that reads its own previous values, a second discrete world in the same process using the same component names; rare switch for known finding F12")
 COMPONENTS = {"real": ["ECAgent.Environments.DiscreteWorld.add_cell_component / remove_cell_component / cells / get_cell",
                        "ConstantGenerator", "LookupGenerator", "LineWorld / GridWorld constructors", "pandas.DataFrame"],
               "stub": ["callable generators and source buffers are harness-built"]}
@@ -28,7 +28,8 @@ PROBES = ["src_callable", "src_list", "src_ndarray_int", "src_ndarray_float", "s
           "remove_unknown_rejected", "lookup_1d", "lookup_2d", "lookup_3d", "get_cell_compared", "generator_object_reused", "readd_live_name_overwrites", "src_lookup_reuse",
           "src_lookup_rebind", "src_const_reuse", "src_const_tuple", "src_const_subclass", "lookup_mixed_text_and_numbers",
           "second_world_same_names", "second_world_removed_a_name_live_here", "second_world_rejects_a_name_live_here",
-          "callable_mixing_int_with_float_or_numeric_text", "src_callable_container"]
+          "callable_mixing_int_with_float_or_numeric_text", "src_callable_container",
+          "readd_from_callable_reading_own_previous_values"]
 TECHNIQUE = "deterministic simulation: seeded add/remove histories of cell components with injected rejected removals and caller-side buffer mutation vs a per-cell reference table"
 LEVEL_TEXT = ("Seeded search over grid shapes, source kinds and add/remove histories; after every operation the column set, the "
               "position column and every cell of every live component must equal the reference (so no add / remove disturbs "
@@ -39,7 +40,7 @@ LEVEL_NOTE = ("Trusted: the per-cell reference; the set of cells is taken from t
               "positive extents.")
 SHRINK_LISTS = ["ops"]
 KINDS = ["callable", "list", "ndarray_int", "ndarray_float", "const", "lookup_list", "lookup_nd", "lookup_reuse",
-         "lookup_rebind", "const_reuse", "const_tuple", "const_subclass", "callable_container"]
+         "lookup_rebind", "const_reuse", "const_tuple", "const_subclass", "callable_container", "callable_reads_self"]
 
 
 class Raster:
@@ -211,6 +212,22 @@ def execute(sc, ctx):
                 else:
                     gen = (lambda pos, cells_, s_=s_: enc(s_, pos))
                     vals = [enc(serial, p) for p in cells]
+            elif src == "callable_reads_self" and readd and all(type(v_) is int for v_ in live[name]["vals"]):
+                # a next-generation update: the component is added again under its own name from a function that reads the
+                # component's CURRENT values through the `cells` table it is handed (cell by cell, in id order)
+                old_vals = list(live[name]["vals"])
+                seen = []
+
+                def gen(pos, cells_, name=name, seen=seen):
+                    i_ = len(seen)
+                    seen.append(pos)
+                    return int(cells_[name][i_]) + 1000
+                vals = [v_ + 1000 for v_ in old_vals]
+                ctx.probe("readd_from_callable_reading_own_previous_values")
+            elif src == "callable_reads_self":
+                s_ = serial
+                gen = (lambda pos, cells_, s_=s_: enc(s_, pos))
+                vals = [enc(serial, p) for p in cells]
             elif src == "callable_container":
                 s_ = serial
                 gen = Raster(lambda pos, s_=s_: enc(s_, pos), n)
